@@ -57,7 +57,8 @@ def _run_shard(args):
     if p.returncode != 0 or not os.path.exists(os.path.join(outdir, "report.json")):
         return {"seed": seed, "error": f"harness rc={p.returncode}: {p.stdout[-800:]}"}
     ops, imp, mod = (os.path.join(outdir, f) for f in ("ops.txt", "impl.txt", "model.txt"))
-    rc, err = vlib.run_driver(DRIVER, ops, mod)
+    # /repo carries the fix: commit for F4, so the model of the code as it is now is the repaired one (Cfg.fixF4)
+    rc, err = vlib.run_driver(DRIVER, ops, mod, args=("--fix",))
     if rc != 0:
         return {"seed": seed, "error": f"driver rc={rc}: {err[-800:]}"}
     n_lines, diffs = vlib.diff_streams(imp, mod, ops)
